@@ -1,5 +1,190 @@
+import NA.Model.Linux
+import NA.Spec.LinuxOracle
 import NA.Core.IOUtil
-/-! Driver stub for C05 (not built yet): echoes its input. -/
+/-! Driver for C05.  One case per line; fields separated by U+001E, lines inside a field by U+001F.
+
+* `cmp␞DEV␞SPOC`      model of `drc -q DEV SPOC` →
+                      `OK␞route lines␞candidate iptables lines␞rest of the script` or `ERR␞message`
+* `norm␞k␟v␟k␟v…`     model of `normalizeIPTables` → pairs sorted by key `k␟v␟…`
+* `pairs␞RULESET`     model of `parseIPTables`: `table␟chain␟i␟k=v,k=v…` records joined by ␞ (sorted), or `ERR␞…`
+* `mk␞names␞DEVROUTES␞DEVRS␞TGTRS`   specification side: what the device prints (`ip route show` lines with
+                      `ip route add ` in front, `iptables-save` text) and the target's iptables text →
+                      `OK␞device text␞target iptables text␞wf(0|1)␞reasons`
+* `oracle␞names␞DEVROUTES␞DEVRS␞TGTROUTELINES␞TGTRS␞STDOUT`   execute the printed script on the device semantics →
+                      `verdict(ok|fail)␞pred␞detail␞device text afterwards`
+  routes: `ip␟plen␟hop␟dev` records joined by `;`-free U+001D; rule sets: lines `T name`, `C name policy`,
+  `R chain opt;opt…` joined by ␟ (option encoding: see `parseOpt`).
+-/
+namespace NA.Drv.C05
+open NA.Linux
+
+def FS : Char := '\x1e'
+def LS : Char := '\x1f'
+
+def unl (x : Str) : Str := x.map fun c => if c == LS then '\n' else c
+def nl (x : Str) : Str := x.map fun c => if c == '\n' then LS else c
+def joinLS (l : List Str) : Str := joinWith [LS] l
+def joinFS (l : List Str) : Str := joinWith [FS] l
+
+def showPairs (p : Pairs) : Str :=
+  let ks := sortStrs (keysA p)
+  joinWith [','] (ks.map fun k => k ++ ['='] ++ (getA k p).getD [])
+
+open NA.Linux.Spec in
+def parseNeg (x : Str) : Neg := if x = s "b" then .before else if x = s "a" then .after else .no
+
+def splitOn1 (x : Str) (c : Char) : List Str := if x.isEmpty then [] else splitChar x c
+
+def toNat (x : Str) : Nat := x.foldl (fun n c => n * 10 + (c.toNat - 48)) 0
+def isT (x : Str) : Bool := x = s "1"
+
+open NA.Linux.Spec in
+def parseProto (x : Str) : Proto :=
+  if x = s "tcp" then .tcp else if x = s "udp" then .udp else if x = s "icmp" then .icmp
+  else if x = s "vrrp" then .vrrp else if x = s "ipv6icmp" then .ipv6icmp else .num (x.drop 1)
+
+open NA.Linux.Spec in
+def parseSt (c : Char) : Option St :=
+  if c == 'I' then some .invalid else if c == 'N' then some .new else if c == 'R' then some .related
+  else if c == 'E' then some .established else if c == 'U' then some .untracked else none
+
+open NA.Linux.Spec in
+/-- `s~neg~ip~len~h`, `d~…`, `i~neg~name`, `p~neg~proto~upper~num`, `sp~(1|r)~lo~hi~zeros~open`, `dp~…`,
+`syn~neg~flags`, `it~t`, `m~name`, `st~LETTERS`, `j~t`, `g~t`, `ll~lvl~debug`, `mk~hex~x~val`, `ts~ip`. -/
+def parseOpt (x : Str) : Option AOpt :=
+  match splitChar x '~' with
+  | [k, a, b, c, d] =>
+    if k = s "s" then some (.src (parseNeg a) b c (isT d))
+    else if k = s "d" then some (.dst (parseNeg a) b c (isT d))
+    else if k = s "p" then some (.proto (parseNeg a) (parseProto b) (isT c) (isT d))
+    else none
+  | [k, a, b, c, d, e] =>
+    let ps : Ports := if a = s "1" then .one b else .range b c
+    if k = s "sp" then some (.sport ps (toNat d) (isT e))
+    else if k = s "dp" then some (.dport ps (toNat d) (isT e))
+    else none
+  | [k, a, b, c] =>
+    if k = s "mk" then some (.setMark a (isT b) c) else none
+  | [k, a, b] =>
+    if k = s "i" then some (.inIf (parseNeg a) b)
+    else if k = s "syn" then some (.syn (isT a) (isT b))
+    else if k = s "ll" then some (.logLevel a (isT b))
+    else none
+  | [k, a] =>
+    if k = s "it" then some (.icmpType a)
+    else if k = s "m" then some (.mExplicit a)
+    else if k = s "st" then some (.state (a.filterMap parseSt))
+    else if k = s "j" then some (.jump a)
+    else if k = s "g" then some (.goto a)
+    else if k = s "ts" then some (.toSource a)
+    else none
+  | _ => none
+
+open NA.Linux.Spec in
+def parseRS (x : Str) : Option AState :=
+  let lines := splitOn1 x LS
+  let rec go : List Str → AState → Option AState
+    | [], acc => some acc
+    | l :: ls, acc =>
+      match l with
+      | 'T' :: ' ' :: n => go ls (acc ++ [{ name := n, chains := [] }])
+      | 'C' :: ' ' :: r =>
+        match splitChar r ' ', acc.reverse with
+        | [n, p], t :: ts => go ls ((t :: ts).tail.reverse ++ [{ t with chains := t.chains ++ [{ name := n, policy := p, rules := [] }] }])
+        | _, _ => none
+      | 'R' :: ' ' :: r =>
+        match cutChar r ' ', acc.reverse with
+        | (c, os, _), t :: ts =>
+          match (splitOn1 os ';').mapM parseOpt with
+          | some rule =>
+            let cs := t.chains.map fun ch => if ch.name = c then { ch with rules := ch.rules ++ [rule] } else ch
+            go ls (ts.reverse ++ [{ t with chains := cs }])
+          | none => none
+        | _, _ => none
+      | _ => none
+  go lines []
+
+def GS : Char := '\x1d'
+
+open NA.Linux.Spec in
+def parseDevRoutes (x : Str) : List (Spec.RKey × Option Str) :=
+  (splitOn1 x GS).filterMap fun r => match splitChar r LS with
+    | [ip, pl, hop, dev] => some ((ip, Int.ofNat (toNat pl), hop), if dev.isEmpty then none else some dev)
+    | _ => none
+
+open NA.Linux.Spec in
+def devText (cfg : KCfg) (routes : List (Spec.RKey × Option Str)) (rs : AState) : List Str :=
+  routes.map (fun (k, d) => s "ip route add " ++ routeShow k d) ++ (if rs.isEmpty then [] else saveText cfg rs)
+
+open NA.Linux.Spec in
+def specAnswer (fs : List Str) : Option Str :=
+  match fs with
+  | [c, names, dr, drs, trs] =>
+    if c = s "mk" then do
+      let cfg : KCfg := { protoNames := isT names }
+      let d ← parseRS drs
+      let t ← parseRS trs
+      let why := classify cfg t
+      some (joinFS [s "OK", joinLS (devText cfg (parseDevRoutes dr) d), joinLS (userText t),
+        if why.isEmpty then s "1" else s "0", joinWith [','] why])
+    else none
+  | [c, names, dr, drs, trl, trs, out] =>
+    if c = s "oracle" then do
+      let cfg : KCfg := { protoNames := isT names }
+      let d ← parseRS drs
+      let t ← parseRS trs
+      let devR := parseDevRoutes dr
+      let outLines := splitOn1 out LS
+      let rOut := outLines.takeWhile (fun l => hasPrefix l (s "ip route "))
+      let iOut := outLines.dropWhile (fun l => hasPrefix l (s "ip route "))
+      let iOut := match iOut with
+        | h :: _ :: _ :: file => h :: file     -- drop `#!/sbin/iptables-restore` and `# Generated by NetSPoC`
+        | other => other
+      let v1 := routeOracle (devR.map (·.1)) (splitOn1 trl LS) rOut
+      let v2 := iptOracle cfg d t iOut
+      let v := if !v1.ok then v1 else v2
+      -- the device afterwards: routes keep their `dev` attribute where they survive
+      let newR := v1.routes.map fun k => (k, (devR.find? (·.1 = k)).bind (·.2))
+      some (joinFS [if v1.ok && v2.ok then s "ok" else s "fail", v.pred, v.detail,
+        joinLS (devText cfg newR v2.ipt), if v1.ok then [] else v1.pred, if v2.ok then [] else v2.pred])
+    else none
+  | _ => none
+
+def answer (line : String) : String :=
+  let fs := splitChar line.toList FS
+  Str.toS <| match fs with
+  | [c, dev, spoc] =>
+    if c = s "cmp" then
+      match compareFiles (unl dev) (unl spoc) with
+      | .error e => joinFS [s "ERR", nl e]
+      | .ok ch =>
+        let (r, c, rest) := ch.show
+        joinFS [s "OK", joinLS r, joinLS c, joinLS rest]
+    else s "bad-input"
+  | [c, arg] =>
+    if c = s "norm" then
+      let l := if arg.isEmpty then [] else splitChar arg LS
+      let rec mk : List Str → Pairs → Pairs
+        | k :: v :: r, acc => mk r (setA k v acc)
+        | _, acc => acc
+      let p := normalize (mk l [])
+      joinLS ((sortStrs (keysA p)).flatMap fun k => [k, (getA k p).getD []])
+    else if c = s "pairs" then
+      match parseIPTables (splitChar (unl arg) '\n') with
+      | .error e => joinFS [s "ERR", nl e]
+      | .ok tb =>
+        let recs := (sortStrs (keysA tb)).flatMap fun t =>
+          let cm := (getA t tb).getD []
+          (sortStrs (keysA cm)).flatMap fun c =>
+            let ch := (getA c cm).getD default
+            (List.range ch.rules.length).map fun i =>
+              joinLS [t, c, natToStr i, showPairs ((ch.rules.getD i default).pairs)]
+        joinFS (s "OK" :: recs)
+    else s "bad-input"
+  | _ => (specAnswer fs).getD (s "bad-input")
+
+end NA.Drv.C05
+
 def main (_ : List String) : IO UInt32 := do
-  NA.IOUtil.eachLine id
+  NA.IOUtil.eachLine NA.Drv.C05.answer
   return 0
